@@ -343,7 +343,13 @@ class Gen:
                 nf = SFile(len(self.files), "lib" + _letters(len(self.files) * 20 + self.rng.randrange(20)), "")
                 nf.proto = nf.base
                 self.files.append(nf)
-                as_name = None if self.rng.random() < 0.5 else "im" + _letters(self.rng.randrange(500))
+                as_name = None
+                if self.rng.random() >= 0.5:
+                    used = {a for f in self.files for _, a in f.imports if a}
+                    while True:
+                        as_name = "im" + _letters(self.rng.randrange(500))
+                        if as_name not in used and as_name not in RESERVED:
+                            break
                 self.files[ctx_file].imports.append((nf.idx, as_name))
                 fi = nf.idx
             else:
